@@ -685,6 +685,13 @@ func (b *BloomSearchEngine) copyDataBlock(ctx context.Context, writer io.Writer,
 	// The copied block keeps everything but its location in the file.
 	newBlockMetadata := block // copy the struct
 	newBlockMetadata.RowDataOffset = *currentOffset
+	if !newBlockMetadata.HasRowDataHash {
+		// A block an external writer produced without a checksum gets one when
+		// the engine rewrites it: every block of an engine-written file is then
+		// verified before a row is scanned, whatever produced its source.
+		newBlockMetadata.RowDataHash = crc32.Checksum(compressed, crc32cTable)
+		newBlockMetadata.HasRowDataHash = true
+	}
 	newBlockMetadata.BloomFilterOffset, newBlockMetadata.BloomFilterSize = filterRegion.add(filterSection)
 
 	*newDataBlocks = append(*newDataBlocks, newBlockMetadata)
